@@ -42,7 +42,10 @@ type c13Completion struct {
 	Malformed    bool      `json:"malformed"`
 }
 
-var c13Words = []string{"hello", " world", "", " ünïcödé ✓", " 日本語のテキスト", "\n\nnew para", " \"quoted\" \\ back", " emoji 🎉🚀", " data: not a field", "\t", " [DONE]", " </s>"}
+var c13Words = []string{"hello", " world", "", " ünïcödé ✓", " 日本語のテキスト", "\n\nnew para", " \"quoted\" \\ back", " emoji 🎉🚀", " data: not a field", "\t", " [DONE]", " </s>",
+	// control characters and non-printable code points: terminal colour sequences, bells, form feeds in
+	// generated code, tag characters; JSON spells them \u00XX, Go's quoting would not
+	" \x1b[31mred\x1b[0m", " bell\a", " v\vtab", " del\x7f", " ff\f", " nul\x00", " tag\U000E0001", " bom\ufeff", " ls\u2028ps\u2029"}
 
 func c13Args(r R) string {
 	switch r.Pick(7) {
